@@ -1,10 +1,12 @@
 #!/bin/sh
-# tools/seedall.sh <log> <ids...> : run seedtest on every seed of the given properties (from /tmp/seedwork)
+# tools/seedall.sh <log> [ids...] : run tools/seedtest.sh on every kept seed under /verif/seeded (default: all)
+D="$(cd "$(dirname "$0")/.." && pwd)"
 LOG=$1; shift
+[ $# -eq 0 ] && set -- $(ls "$D/seeded" | grep '^C')
 for id in "$@"; do
-  for d in /tmp/seedwork/$id/${SEEDSUB:-seed_out}/*/; do
+  for d in "$D/seeded/$id"/*/; do
     [ -f "$d/patch.diff" ] || continue
-    /verif/tools/seedtest.sh "$d" >> "$LOG" 2>&1
+    "$D/tools/seedtest.sh" "$d" >> "$LOG" 2>&1
   done
 done
 echo ALLDONE >> "$LOG"
